@@ -325,7 +325,7 @@ func e2ePred(g *Gen, cols []qcol, depth int) string {
 }
 
 func genC26e2e(g *Gen, tier string, w *bufio.Writer) {
-	n := 20
+	n := 10
 	if tier == "thorough" {
 		n = 500
 	}
@@ -343,6 +343,9 @@ func genC26e2e(g *Gen, tier string, w *bufio.Writer) {
 	fmt.Fprintln(w, e2eLine(fixed, "SELECT a.c0 FROM t.csv a WHERE a.c0 IN (SELECT x.c0 FROM @T x WHERE x.c1 = a.c1)"))
 	// a predicate with a subquery cannot be serialised: it must stay on the octosql side, not get lost
 	fmt.Fprintln(w, e2eLine(fixed, "SELECT * FROM @T x WHERE x.c0 IN (SELECT y.c0 FROM t.csv y WHERE y.c1 = 'x') AND len(x.c1) = 1"))
+	// a call the plugin cannot resolve (`len()` passes the typechecker's second loop): the predicate must come back as
+	// rejected next to the one that is pushed down — here both runs then fail the same way, a lost predicate would not
+	fmt.Fprintln(w, e2eLine(fixed, "SELECT * FROM @T x WHERE len() = 1 AND x.c0 = 1"))
 	for i := 0; i < n; i++ {
 		t := genQTable(g, o)
 		p := e2ePred(g, t.cols, 2)
